@@ -4,8 +4,8 @@
    correspondence check (harness/cmd/c02).  Every theorem holds for every field (flaws K). *)
 From Coq Require Import List NArith ZArith Arith Bool.
 Import ListNotations.
-Require Import V.base.Fld V.base.ZpField V.model.LinAlg V.model.Access V.model.Msp V.model.Kw.
-Require Import V.proofs.Span_proofs V.proofs.Msp_proofs V.proofs.Kw_proofs V.proofs.Families_proofs.
+Require Import V.base.Fld V.base.ZpField V.model.LinAlg V.model.Poly V.model.Access V.model.Msp V.model.Kw V.model.Schemes.
+Require Import V.proofs.Span_proofs V.proofs.Msp_proofs V.proofs.Kw_proofs V.proofs.Families_proofs V.proofs.Schemes_proofs.
 
 (* ---- generic: every MSP (any matrix, any labelling — ideal or not), every field ------------- *)
 
@@ -114,6 +114,43 @@ Theorem C02_cnf_exact : forall F (K : fops F), flaws K -> forall mus (m : msp) i
   accepts K m ids = is_qualified (Cnf mus) ids.
 Proof. exact @cnf_accepts_iff_closed. Qed.
 Print Assumptions C02_cnf_exact.
+
+(* ---- dedicated schemes ------------------------------------------------------------------------------------ *)
+
+(* Shamir: any >= t distinct holders reconstruct the constant term (nodes distinct in the field) *)
+Theorem C02_shamir_correct : forall F (K : fops F), flaws K -> forall (fromN : N -> F) t ps cs ids,
+  (forall a b, In a ps -> In b ps -> fromN a = fromN b -> a = b) ->
+  NoDup ids -> incl ids ps -> (t <= length ids)%nat -> length cs = t ->
+  shamir_reconstruct K fromN t ps (map (fun id => (id, poly_eval K cs (fromN id))) ids) = Some (nth 0 cs (f0 K)).
+Proof. exact @shamir_correct. Qed.
+Print Assumptions C02_shamir_correct.
+
+Theorem C02_shamir_exact : forall F (K : fops F) (fromN : N -> F) t ps (shares : list (N * F)),
+  is_qualified (Thr t ps) (map fst (dedup_shares K shares)) = false ->
+  shamir_reconstruct K fromN t ps shares = None.
+Proof. exact @shamir_exact. Qed.
+Print Assumptions C02_shamir_exact.
+
+Theorem C02_shamir_privacy : forall F (K : fops F), flaws K -> forall (fromN : N -> F) t cs ids s',
+  (forall a b, In a ids -> In b ids -> fromN a = fromN b -> a = b) ->
+  (forall id, In id ids -> fromN id <> f0 K) ->
+  NoDup ids -> (length ids < t)%nat -> length cs = t ->
+  exists cs', length cs' = t /\ nth 0 cs' (f0 K) = s' /\
+    forall id, In id ids -> poly_eval K cs' (fromN id) = poly_eval K cs (fromN id).
+Proof. exact @shamir_privacy. Qed.
+Print Assumptions C02_shamir_privacy.
+
+Theorem C02_additive_correct : forall F (K : fops F), flaws K -> forall ps (shares : list (N * F)) s rs,
+  NoDup (map fst shares) -> seteqb (map fst shares) ps = true ->
+  map snd shares = sum_to_secret K s rs ->
+  additive_reconstruct K ps shares = Some s.
+Proof. exact @additive_correct. Qed.
+Print Assumptions C02_additive_correct.
+
+Theorem C02_additive_privacy : forall F (K : fops F), flaws K -> forall (l : list F) j s', (j < length l)%nat ->
+  exists l', length l' = length l /\ fsum K l' = s' /\ forall i, i <> j -> nth i l' (f0 K) = nth i l (f0 K).
+Proof. exact @additive_privacy. Qed.
+Print Assumptions C02_additive_privacy.
 
 (* ---- hypotheses are satisfiable: threshold (2,3) over Z_7, a CNF and a unanimity MSP ------------------ *)
 Definition K7 := ZpS 7 (prime_gt0 7 prime_7).
